@@ -1094,6 +1094,8 @@ AUDITED = [
      'why': 'decoded_vec.len() * size_of::<T>() <= len * size_of::<T>(), which the caller computed with checked_mul before the first chunk (K2: chunks sum to len)'},
     {'fn': 'helper:bulk::{closure#0}', 'kind': 'Overflow Add', 'max': 1,
      'why': 'decoded_vec.len() + chunk_len <= len (K2: chunk lengths sum to the count the caller passed)'},
+    {'fn': 'helper:bulk::{closure#0}', 'kind': 'call split_at_mut', 'max': 1,
+     'why': 'bytes_slice.split_at_mut(old_len * size): the same view as bytes_slice[old_len * size..] below, same argument'},
     {'fn': 'helper:bulk::{closure#0}', 'kind': 'call index_mut', 'max': 1,
      'why': 'bytes_slice[old_len * size..]: bytes_slice is the byte view of the vector after set_len(old_len + chunk_len), i.e. (old_len + chunk_len) * size bytes long'},
 ]
